@@ -19,6 +19,7 @@ def schema_line(tables, unions):
         if k == "s": return "%d:%d:s:%d:%d" % (f["id"], f["req"], f["a"], f["b"])
         if k == "v": return "%d:%d:v:%d:%d:%d" % (f["id"], f["req"], f["a"], f["b"], f["c"])
         if k in ("str", "sv"): return "%d:%d:%s" % (f["id"], f["req"], k)
+        if k in ("nt", "ns"): return "%d:%d:%s:%d:%d" % (f["id"], f["req"], k, f["a"], f["b"])     # nested root: table + align / struct size + align
         return "%d:%d:%s:%d" % (f["id"], f["req"], k, f["a"])
     def m2s(m):
         if m["kind"] == "t": return "%d:t:%d" % (m["code"], m["a"])
@@ -29,7 +30,7 @@ def schema_line(tables, unions):
     return "schema " + t + ("#" + u if unions else "")
 
 
-def random_schema(r, ntab=None):
+def random_schema(r, ntab=None, nested=False):
     ntab = ntab or r.randint(1, 4)
     nun = r.randint(0, 2)
     unions = []
@@ -51,6 +52,13 @@ def random_schema(r, ntab=None):
             k = r.choice(kinds)
             req = 1 if r.random() < 0.15 and k not in ("s",) else 0
             if r.random() < 0.15: fid += r.randint(1, 3)       # gaps (deprecated fields)
+            if nested and r.random() < 0.15:
+                # nested_flatbuffer fields: a table root (the generated call passes the ubyte vector's alignment, 1) or a struct root
+                if r.random() < 0.6:
+                    fs.append(fld(fid, req, "nt", r.randrange(ntab), 1)); fid += 1
+                else:
+                    al = r.choice([1, 2, 4, 8, 16]); fs.append(fld(fid, req, "ns", al * r.randint(0, 3), al)); fid += 1
+                continue
             if k == "s":
                 al = r.choice([1, 2, 4, 8, 16]); sz = al * r.choice([1, 1, 1, 2, 3]) if r.random() < 0.9 else 0
                 fs.append(fld(fid, 0, "s", sz, al)); fid += 1
@@ -108,6 +116,30 @@ class Enc:
             self.mark(slot, 4, "elem")
         self.prepend(struct.pack("<I", n)); self.mark(self.L(), 4, "veclen"); return self.L()
 
+    def nested(self, f, depth):
+        """a [ubyte] vector holding a complete buffer of its own (root table f.a / root struct of size f.a, alignment f.b), placed so that
+        the nested buffer starts at a multiple of its own largest alignment (knob `misalign_nested`: only at a multiple of 4)"""
+        r = self.r
+        if f["kind"] == "nt":
+            sub = Enc(r, self.tables, self.unions, self.knobs)
+            root = sub.table(f["a"], depth + 2)
+            ident = r.choice([None, None, b"NEST"])
+            data, marks = sub.finish(root, ident, False)
+            al = sub.minalign
+        else:
+            size, al = f["a"], max(1, f["b"])
+            hdr = 8
+            padn = (-hdr) % al
+            data = struct.pack("<I", hdr + padn) + b"\0\0\0\0" + b"\0" * padn + r.randbytes(size)
+            marks = [(0, 4, "root")]
+            al = max(4, al)
+        if self.knobs.get("misalign_nested") and r.random() < 0.5: al = 4
+        pos = self.vector(data, len(data), al)
+        # interesting words inside the nested buffer, in the coordinates of this buffer (from_end of byte p = from_end of the data start - p)
+        for (p, sz, what) in marks:
+            self.mark(pos - 4 - p, sz, "n" + what)
+        return pos
+
     def member(self, m, depth):
         if m["kind"] == "t": return self.table(m["a"], depth + 1)
         if m["kind"] == "str": return self.string(self.rand_bytes())
@@ -141,6 +173,9 @@ class Enc:
             elif k == "sv":
                 ts = [self.string(self.rand_bytes()) for _ in range(r.choice([0, 1, 2, 3]))]
                 present.append((f["id"], ("off", self.offset_vector(ts)), 4, 4))
+            elif k in ("nt", "ns"):
+                if depth > 2 and not f["req"]: continue
+                present.append((f["id"], ("off", self.nested(f, depth)), 4, 4))
             elif k == "t":
                 present.append((f["id"], ("off", self.table(f["a"], depth + 1)), 4, 4))
             elif k == "tv":
